@@ -10,6 +10,12 @@ let rec nth_error l = function
            | [] -> None
            | _ :: l0 -> nth_error l0 n0)
 
+(** val rev : 'a1 list -> 'a1 list **)
+
+let rec rev = function
+| [] -> []
+| x :: l' -> app (rev l') (x :: [])
+
 (** val concat : 'a1 list list -> 'a1 list **)
 
 let rec concat = function
